@@ -21,7 +21,7 @@ CONFIRM_ALONE = ('pool_hung_at_startup_burst', 'restart_limiter_never_reacted')
 FLOORS = {
     'quick': {'l0:limiter_steps': 100000, 'l0:limiter_raises': 3000, 'sim:limiter_raise_confirmed': 60,
               'sim:restarts_admitted': 1000, 'sim:supervise_with_exits': 1200},
-    'thorough': {'l0:limiter_steps': 1000000, 'sim:limiter_raise_confirmed': 2000},
+    'thorough': {'l0:limiter_steps': 1000000, 'sim:limiter_raise_confirmed': 600},
 }
 
 
